@@ -986,13 +986,9 @@ fn wrappers_svm(em: &mut Em, rng: &mut Rng) {
                 }
             }
             for i in 0..n {
-                let mut best = 0;
-                for k in 1..copies.len() {
-                    if *probs[k][i] > *probs[best][i] {
-                        best = k;
-                    }
-                }
-                ctx.require(out[i] == copies[best].0, "label_of_highest_probability", kind, || format!("row {}: label {}, member probabilities {:?}", i, out[i], probs.iter().map(|p| *p[i]).collect::<Vec<f32>>()));
+                let mx = probs.iter().map(|p| *p[i]).fold(f32::NEG_INFINITY, f32::max);
+                let winners: Vec<usize> = (0..copies.len()).filter(|k| *probs[*k][i] == mx).map(|k| copies[k].0).collect();
+                ctx.require(winners.contains(&out[i]), "label_of_highest_probability", kind, || format!("row {}: label {}, member probabilities {:?}", i, out[i], probs.iter().map(|p| *p[i]).collect::<Vec<f32>>()));
                 let one = batch.slice(s![i..i + 1, ..]).to_owned();
                 let r: Array1<usize> = w.predict(&one);
                 if r.len() != 1 || r[0] != out[i] {
@@ -1109,7 +1105,7 @@ pub fn run(em: &mut Em, rng: &mut Rng) {
     for _ in 0..(if em.thorough() { 60 } else { 8 }) {
         one_round_f32(em, rng);
     }
-    for _ in 0..(if em.thorough() { 30 } else { 4 }) {
+    for _ in 0..(if em.thorough() { 30 } else { 8 }) {
         wrappers_svm(em, rng);
     }
     for _ in 0..(if em.thorough() { 40 } else { 6 }) {
